@@ -7,6 +7,10 @@ Pure queries (no state):
   hkdf32 <secret> <info> <salt>                  → hex of hkdf_sha256
   native_keys <seed> <net> <id>                  → base=.. id=.. f=.. r=.. h=.. p=.. d=.. s=..
   ldk_keys <seed> <net> <id> <idx>:<priv>        → same (BIP32 child m/3'/idx' supplied as oracle)
+  chanid <peer33> <oid>                          → id=<hex> oid=<n|panic> ldk=<hex|panic>   (ChannelId::new_from_peer_id_and_oid, oid(), ldk_channel_keys_id())
+  chanid_oid <oid>                               → same for ChannelId::new_from_oid
+  oid_of <id>                                    → oid=<n|panic> ldk=<hex|panic>            (ChannelId::new(id).oid() / .ldk_channel_keys_id())
+  be64 <bytes>                                   → <n> | panic                               (byte_utils::slice_to_be64, as used on keys_id[0..8])
   commit_secret <seed32> <idx>                   → hex of build_commitment_secret
   derive <secret32> <bits> <idx>                 → hex of derive_secret
   tree <seed32> <idx> <bits>                     → <commit_secret idx> <derive (commit_secret (idx with low bits zeroed)) bits idx>
@@ -51,10 +55,13 @@ def style? : String → Option Style
   | "l" => some .ldk
   | _ => none
 
-def le64 (n : Nat) : Bytes := (List.range 8).map (fun i => UInt8.ofNat ((n >>> (8 * i)) % 256))
+/-- `ChannelId::new_from_peer_id_and_oid` (the model's definition; the theorems of `Props/C18.lean` about the
+ids the node builds are about this function) -/
+def chanId (peer : Bytes) (dbid : Nat) : Bytes := chanIdOfPeerOid peer dbid
 
-/-- `ChannelId::new_from_peer_id_and_oid` -/
-def chanId (peer : Bytes) (dbid : Nat) : Bytes := peer ++ le64 dbid
+def optNat : Option Nat → String
+  | some n => toString n
+  | none => "panic"
 
 def oracleTok? (s : String) : Option (Nat × Bytes) :=
   match s.splitOn ":" with
@@ -104,6 +111,28 @@ def pure? (toks : List String) : Option String :=
         let P := concretePrims (childOf [e])
         s!"base={toHex (channelSeedBase P seed)} {material (keysOf P .ldk seed net id)}"
     | _, _, _, _ => "bad-op"
+  | ["chanid", p, o] => some <|
+    match hex? p, nat? o with
+    | some peer, some oid =>
+      if peer.length ≠ 33 ∨ oid ≥ 2 ^ 64 then "bad-op" else
+      let id := chanIdOfPeerOid peer oid
+      s!"id={toHex id} oid={optNat (chanIdOid id)} ldk={(chanIdLdkKeysId id).elim "panic" toHex}"
+    | _, _ => "bad-op"
+  | ["chanid_oid", o] => some <|
+    match nat? o with
+    | some oid =>
+      if oid ≥ 2 ^ 64 then "bad-op" else
+      let id := chanIdOfOid oid
+      s!"id={toHex id} oid={optNat (chanIdOid id)} ldk={(chanIdLdkKeysId id).elim "panic" toHex}"
+    | none => "bad-op"
+  | ["oid_of", i] => some <|
+    match hex? i with
+    | some id => s!"oid={optNat (chanIdOid id)} ldk={(chanIdLdkKeysId id).elim "panic" toHex}"
+    | none => "bad-op"
+  | ["be64", b] => some <|
+    match hex? b with
+    | some bs => if bs.length < 8 then "panic" else toString (be64 bs)
+    | none => "bad-op"
   | ["commit_secret", s, i] => some <|
     match hex? s, nat? i with
     | some seed, some idx =>
